@@ -129,5 +129,11 @@ package dochandler
 //@   modifies lastResolved
 //@ func (*DocumentHandler).resolveRequestWithInitialState
 //@   requires dhOK(r) && pv != nil
+//   C08: an unanchored long-form DID resolves only if its unique suffix IS (not merely ends with / contains) the suffix
+//   derived from the embedded initial state, and the document is presented under that suffix
+//@   params r, uniqueSuffix, longFormDID, initialBytes, pv
+//@   results res, err
+//@   ensures err == nil ==> uniqueSuffix == parsedSuffix(parserOf(pv), r.namespace, initialBytes)
+//@   atcall GetTransformationInfoForUnpublished suffix == parsedSuffix(parserOf(pv), r.namespace, initialBytes)
 //   a DID resolved from its initial state is always presented as unpublished
 //@   atcall TransformDocument "published" in info && info["published"] == boxed(false) && !("canonicalId" in info)
